@@ -63,7 +63,11 @@ def make_curve_set(rng, mix, n_curves=None, n_points=None, ctype="weight", t_cen
 
 
 def make_program(rng, T0, horizon):
-    """A temperature programme that stays within 273..400 K over [0, horizon] hours."""
+    """A temperature programme that stays within 273..400 K over [0, horizon] hours; its value at t = 0 is the initial feed
+    temperature or (30 %) a few kelvin off it (the series still starts at the stated initial temperature)."""
+    T0 = float(T0)
+    if rng.random() < 0.3:
+        T0 = min(395.0, max(278.0, T0 + rng.uniform(-6.0, 6.0)))
     typ = rng.choice(["polynomial", "exponential", "logarithmic"])
     dT = rng.uniform(-25.0, 25.0) if rng.random() < 0.6 else rng.choice([-1, 1]) * gen.logu(rng, 1e-3, 1.0)
     h = max(horizon, 1e-9)
@@ -101,7 +105,8 @@ def scenario(rng, kind=None, mode=None, removal=None, builtin_p=0.6, prog_p=0.4)
     if kind.startswith("nonideal"):
         single_off = rng.random() < 0.5        # single curve at a temperature different from T0
         sc["curves"] = make_curve_set(rng, mix, t_center=None if single_off else T0,
-                                      n_curves=None if single_off else rng.choice([1, 2, 3]))
+                                      n_curves=None if single_off else rng.choice([1, 2, 3]),
+                                      ctype=rng.choice(["weight", "weight", "molar"]))
         if rng.random() < 0.5:
             sc["P0"] = (gen.logu(rng, 1e-3, 0.2), gen.logu(rng, 1e-5, 1e-2), rng.choice([KG, KG, "SI", "GPU"]))
         sc["warmup"] = rng.random() < 0.4
@@ -111,12 +116,19 @@ def scenario(rng, kind=None, mode=None, removal=None, builtin_p=0.6, prog_p=0.4)
                          "include_zero": rng.random() < 0.3}
     if kind.endswith("noniso") and rng.random() < prog_p:
         sc["want_prog"] = True
+    if rng.random() < 0.15:
+        sc["T0"] = int(round(sc["T0"]))          # numbers given as Python ints are admissible inputs too
+        if mode == "temp":
+            sc["Tperm"] = min(sc["Tperm"], sc["T0"] - 20.0)
+    if rng.random() < 0.1:
+        sc["m0"] = int(max(1, round(sc["m0"])))
     return sc
 
 
 def conditions_of(sc):
+    comp = sc.get("shared_comp") or pv.Composition(p=sc["x0"], type=sc["basis"])
     return pv.Conditions(membrane_area=sc["A"], initial_feed_temperature=sc["T0"], initial_feed_amount=sc["m0"],
-                         initial_feed_composition=pv.Composition(p=sc["x0"], type=sc["basis"]),
+                         initial_feed_composition=comp,
                          permeate_temperature=sc["Tperm"], permeate_pressure=sc["pperm"],
                          temperature_program=sc["prog"])
 
@@ -258,8 +270,13 @@ def state_lines(perv, sc, res, with_std=True):
             st["progT"] = 0.0
         if with_std:
             try:
-                js = perv.calculate_partial_fluxes(T, pv.Composition(p=float(xk.p), type="weight"), sc["prec"], sc["Tperm"],
-                                                   sc["pperm"], P[0], P[1], sc["model"])
+                if sc["kind"].startswith("ideal"):
+                    # ideal models: the standalone calculation takes the permeances from the membrane itself
+                    js = perv.calculate_partial_fluxes(T, pv.Composition(p=float(xk.p), type="weight"), sc["prec"], sc["Tperm"],
+                                                       sc["pperm"], calculation_type=sc["model"])
+                else:
+                    js = perv.calculate_partial_fluxes(T, pv.Composition(p=float(xk.p), type="weight"), sc["prec"], sc["Tperm"],
+                                                       sc["pperm"], P[0], P[1], sc["model"])
                 st["Jstd"] = [F(js[0]), F(js[1])]
                 st["hasJstd"] = True
             except Exception:  # noqa: BLE001
@@ -349,6 +366,7 @@ def record_job(job):
     traces = []
     stats = {"nontrivial": set(), "outcomes": {}, "kinds": {}}
     kinds = opts.get("kinds", KINDS)
+    pool = []            # Composition OBJECTS shared between runs of this job (also across different mixtures)
     for j in range(n):
         kind = kinds[j % len(kinds)]
         rem = None
@@ -361,6 +379,13 @@ def record_job(job):
             sc["N"] = 2                            # the over-cooled state is the last one reported
         if opts.get("maxN"):
             sc["N"] = min(sc["N"], opts["maxN"])
+        if pool and rng.random() < 0.25:
+            sc["shared_comp"] = rng.choice(pool)          # the very same object another run (another mixture) already used
+            sc["x0"], sc["basis"] = float(sc["shared_comp"].p), sc["shared_comp"].type
+        else:
+            sc["shared_comp"] = pv.Composition(p=sc["x0"], type=sc["basis"])
+            pool.append(sc["shared_comp"])
+            pool[:] = pool[-6:]
         tr, res = trace_process(rng, sc, with_std=opts.get("with_std", True), with_fits=opts.get("with_fits", False),
                                with_ref=opts.get("with_ref", False))
         if tr is None:
@@ -384,6 +409,8 @@ def step0_twin(rng, ideal=True):
         return None
     sc2 = dict(sc)
     sc2["kind"] = "ideal_noniso" if ideal else "nonideal_noniso"
+    if rng.random() < 0.4:
+        sc2["prog"] = make_program(rng, sc["T0"], sc["dt"] * sc["N"])     # step 0 does not depend on the programme
     ra, rb = run_process(perv, sc), run_process(perv, sc2)
     if ra["outcome"] != "return" or rb["outcome"] != "return":
         return None
